@@ -370,6 +370,22 @@ def check(run, prog, tier):
         for b, i, n in g.nodes():
             if n.get("k") == "Bin" and n.get("op") == "/" and strip(n["L"]).get("d") == "param" and "size" in (strip(n["L"]).get("n") or "") and (const_val(n["R"]) or 0) > 1:
                 unit_u = max(unit_u, const_val(n["R"]))
+    # the same written as a countdown: `size -= u` per exchange; a byte-wise tail (`size--`, `size -= 1`) in the same
+    # function moves the remainder, so the unit is 1 again
+    for g in swaps + [qs]:
+        steps = set()
+        for b, i, n in g.nodes():
+            tgt = strip(n["L"]) if n.get("k") == "Asg" else strip(n["e"]) if n.get("k") == "Un" and n.get("op") in ("--",) else None
+            if tgt is None or tgt.get("d") != "param" or "size" not in (tgt.get("n") or ""):
+                continue
+            if n.get("k") == "Un":
+                steps.add(1)
+            elif n.get("op") == "-=" and const_val(n["R"]) is not None:
+                steps.add(const_val(n["R"]))
+            elif n.get("op") == "=" and strip(n["R"]).get("k") == "Bin" and strip(n["R"]).get("op") == "-" and strip(strip(n["R"])["L"]).get("id") == tgt.get("id") and const_val(strip(n["R"])["R"]) is not None:
+                steps.add(const_val(strip(n["R"])["R"]))
+        if steps and 1 not in steps:
+            unit_u = max(unit_u, min(steps))
     nq = 0
     for f0 in sorted(prog.functions(), key=lambda x: (x.file, x.line)):
         for j, (b, i, n) in enumerate(f0.calls("quickSort")):
